@@ -17,11 +17,20 @@ import (
 	"time"
 )
 
+type schedEntry struct {
+	From string `json:"from"`
+	Pos  string `json:"pos"`
+	N    int    `json:"n"`
+	To   string `json:"to"`
+	Op   string `json:"op"`
+}
+
 type replayFile struct {
-	Harness string            `json:"harness"`
-	Tier    string            `json:"tier"`
-	Values  map[string]uint64 `json:"values"`
-	Clock   []int64           `json:"clock"`
+	Harness  string            `json:"harness"`
+	Tier     string            `json:"tier"`
+	Values   map[string]uint64 `json:"values"`
+	Clock    []int64           `json:"clock"`
+	Schedule []schedEntry      `json:"schedule"`
 }
 
 var (
@@ -181,6 +190,10 @@ func Symbolic() bool { return false }
 
 // Go starts a named harness thread.
 func Go(name string, f func()) {
+	if schedOn {
+		spawnScheduled(name, f)
+		return
+	}
 	wg.Add(1)
 	go func() {
 		defer wg.Done()
@@ -190,6 +203,10 @@ func Go(name string, f func()) {
 
 // Join waits until all harness threads finished (or, symbolically, are blocked).
 func Join() {
+	if schedOn {
+		schedPoint("join", true)
+		return
+	}
 	c := make(chan struct{})
 	go func() { wg.Wait(); close(c) }()
 	select {
@@ -269,6 +286,7 @@ func ReplayMain(harnesses map[string]func()) {
 		fmt.Println("VERIF-ERROR", err)
 		return
 	}
+	schedInit()
 	h := harnesses[rf.Harness]
 	if h == nil {
 		names := []string{}
@@ -359,3 +377,162 @@ func Rest() { time.Sleep(150 * time.Millisecond) }
 // differences of instants are unaffected; the solver is spared 64-bit order reasoning
 // (see engine/intrinsics_c14.go). Natively a no-op (readings come from the model file).
 func ClockSteps(bits int) {}
+
+// ---- C18 helpers ----
+
+// JSONUnmarshal is encoding/json.Unmarshal. Under the symbolic executor it is the json contract
+// model, reachable from a harness function that is itself installed as the Stub of
+// encoding/json.Unmarshal (see harness/internal/clusterinfo/c18_getv1.go).
+func JSONUnmarshal(data []byte, v interface{}) error { return json.Unmarshal(data, v) }
+
+// ---------------------------------------------------------------------------------------
+// Native schedule replay: a deterministic baton scheduler. The instrumented copy of the
+// package under test calls Point(pos) at every synchronisation operation and GoAt for every
+// go statement; the recorded schedule says at which (thread, point, occurrence) the baton
+// moves to which thread. Exactly one registered thread runs at a time.
+
+type nthread struct {
+	name   string
+	wake   chan struct{}
+	visits map[string]int
+}
+
+var (
+	schedOn  bool
+	schedMu  sync.Mutex
+	schedK   int
+	nthreads = map[string]*nthread{}
+	goidName = map[int64]string{}
+)
+
+func goid() int64 {
+	var buf [64]byte
+	n := runtime.Stack(buf[:], false)
+	// "goroutine 123 ["
+	var id int64
+	for _, c := range buf[10:n] {
+		if c < '0' || c > '9' {
+			break
+		}
+		id = id*10 + int64(c-'0')
+	}
+	return id
+}
+
+func schedInit() {
+	if len(rf.Schedule) == 0 {
+		return
+	}
+	schedOn = true
+	t := &nthread{name: "main", wake: make(chan struct{}, 1), visits: map[string]int{}}
+	nthreads["main"] = t
+	goidName[goid()] = "main"
+}
+
+func uniqueThreadName(name string) string {
+	base, k := name, 1
+	for {
+		if _, dup := nthreads[name]; !dup {
+			return name
+		}
+		k++
+		name = fmt.Sprintf("%s#%d", base, k)
+	}
+}
+
+func spawnScheduled(name string, f func()) {
+	schedMu.Lock()
+	name = uniqueThreadName(name)
+	t := &nthread{name: name, wake: make(chan struct{}, 1), visits: map[string]int{}}
+	nthreads[name] = t
+	schedMu.Unlock()
+	go func() {
+		schedMu.Lock()
+		goidName[goid()] = name
+		schedMu.Unlock()
+		<-t.wake // runs only when the schedule hands it the baton
+		f()
+		threadExit(t)
+	}()
+}
+
+// GoAt replaces `go f()` statements of the instrumented code.
+func GoAt(pos string, f func()) {
+	if !schedOn {
+		go f()
+		return
+	}
+	spawnScheduled("go@"+pos, f)
+}
+
+func me() *nthread {
+	schedMu.Lock()
+	defer schedMu.Unlock()
+	return nthreads[goidName[goid()]]
+}
+
+func handover(from *nthread, to string, park bool) {
+	schedMu.Lock()
+	t := nthreads[to]
+	schedMu.Unlock()
+	if t == nil {
+		fmt.Printf("VERIF-SCHED-ERROR unknown thread %q\n", to)
+		return
+	}
+	t.visits = map[string]int{}
+	t.wake <- struct{}{}
+	if park {
+		<-from.wake
+	}
+}
+
+func threadExit(t *nthread) {
+	schedMu.Lock()
+	var e *schedEntry
+	if schedK < len(rf.Schedule) && rf.Schedule[schedK].From == t.name && rf.Schedule[schedK].Pos == "exit" {
+		e = &rf.Schedule[schedK]
+		schedK++
+	}
+	schedMu.Unlock()
+	if e != nil {
+		handover(t, e.To, false)
+	}
+}
+
+// Point is a synchronisation point of the instrumented code.
+func Point(pos string) {
+	if !schedOn {
+		return
+	}
+	schedPoint(pos, false)
+}
+
+func schedPoint(pos string, isJoin bool) {
+	t := me()
+	if t == nil {
+		return // a goroutine the schedule does not know (not spawned through GoAt)
+	}
+	t.visits[pos]++
+	for {
+		schedMu.Lock()
+		var e *schedEntry
+		if schedK < len(rf.Schedule) {
+			c := &rf.Schedule[schedK]
+			if c.From == t.name && ((c.Pos == pos && (c.N == t.visits[pos] || isJoin)) || c.Pos == pos+"/wait") {
+				e = c
+				schedK++
+			}
+		}
+		schedMu.Unlock()
+		if e == nil {
+			return
+		}
+		handover(t, e.To, true)
+		if e.Pos == pos {
+			// after being switched back in at the same point the thread may still have a
+			// recorded "/wait" hand-over at this operation
+			continue
+		}
+		return
+	}
+}
